@@ -117,3 +117,65 @@ Definition C10_small (ty : string) (bs : bytes) : bool * bool * N :=
             | _ => false
             end in
   (ok, ok, 0).
+
+(* ---------------------------------------------------------------- rebuilt automata (layer 3, interpreted)
+   A lazy DFA that is recompiled on load is identified with what build_dfa is given: the two expressions, the
+   two syntax flags taken from the stored Modifiers, and the direction (which selects MatchKind::All + a reverse
+   NFA, or LeftmostFirst + a forward NFA).  The direction is not stored: it comes from literals in the code,
+   read here from a site table (build_sites for Validator::new, rebuild_sites for deserialize_validator).
+   An argument "true"/"false" is a literal, anything else (the parameter `reverse`) is passed through. *)
+Definition dfa_automaton := (bytes * bytes * bool * bool * bool)%type.   (* expr1, expr2, nocase, dot_all, reverse *)
+
+Definition site_param (sites : list site) (s p : string) : string :=
+  match find (fun x => String.eqb (site_name x) s) sites with
+  | Some x => match lookup p (site_params x) with Some a => a | None => EmptyString end
+  | None => EmptyString
+  end.
+
+Definition arg_bool (a : string) (inherited : bool) : bool :=
+  if String.eqb a "true"%string then true else if String.eqb a "false"%string then false else inherited.
+
+Definition dfa_of (sites : list site) (m d : value) (rev : bool) : dfa_automaton :=
+  (vbytes (oget (field "exprs[0]"%string d)), vbytes (oget (field "exprs[1]"%string d)),
+   vbool (oget (field "nocase"%string m)),
+   vbool (oget (field "dot_all"%string m)),
+   arg_bool (site_param sites "DfaValidator/dfa"%string "reverse"%string) rev).
+
+Definition half_automata (sites : list site) (m h : value) (rev : bool) : list dfa_automaton :=
+  match h with
+  | VCtor c (VRec [(_, d)]) =>
+      if String.eqb c "Dfa"%string
+      then [dfa_of sites m d (arg_bool (site_param sites "HalfValidator/Dfa"%string "reverse"%string) rev)]
+      else []
+  | _ => []
+  end.
+
+Definition opt_half (sites : list site) (m o : value) (site : string) : list dfa_automaton :=
+  match o with
+  | VOpt (Some h) => half_automata sites m h (arg_bool (site_param sites site "reverse"%string) false)
+  | _ => []
+  end.
+
+(* m: the Modifiers value of the matcher, v: its Validator value *)
+Definition validator_automata (sites : list site) (m v : value) : list dfa_automaton :=
+  match v with
+  | VCtor c (VRec [(_, x); (_, y)]) =>
+      if String.eqb c "NonGreedy"%string then
+        (opt_half sites m x "Validator/Half.forward"%string ++ opt_half sites m y "Validator/Half.reverse"%string)%list
+      else if String.eqb c "Greedy"%string then
+        [dfa_of sites m x (arg_bool (site_param sites "Validator/Dfa.reverse"%string "reverse"%string) false);
+         dfa_of sites m y (arg_bool (site_param sites "Validator/Dfa.full"%string "reverse"%string) false)]
+      else []
+  | _ => []
+  end.
+
+(* witness of finding 9.9: the validator of /a.+foo.b/ (atom "foo"): reverse part a.+foo, full expression *)
+Definition greedy_witness_modifiers : value :=
+  VRec [("fullword"%string, VB false); ("wide"%string, VB false); ("ascii"%string, VB true);
+        ("nocase"%string, VB false); ("dot_all"%string, VB false); ("xor_start"%string, VOpt None)].
+Definition greedy_witness : value :=
+  VCtor "Greedy"%string
+    (VRec [("reverse"%string, VRec [("exprs[0]"%string, VS [97; 46; 43]); ("exprs[1]"%string, VS []);
+                                    ("use_custom_wide_runner"%string, VB false)]);
+           ("full"%string, VRec [("exprs[0]"%string, VS [97; 46; 43; 102; 111; 111; 46; 98]); ("exprs[1]"%string, VS []);
+                                 ("use_custom_wide_runner"%string, VB false)])]).
